@@ -58,7 +58,11 @@ def run_case(case):
 
     spec = gen.random_spec(r, integ=r.choice(['ias15', 'whfast', 'leapfrog', 'mercurius', 'saba', 'eos', 'bs', 'trace', 'janus']), allow_var=False, nmax=3)
     sim = gen.build_sim(spec)
+    dirn = -1 if case['hseed'] % 5 == 4 else 1       # a fifth of the histories run backwards in time
+    sim.dt = dirn * abs(sim.dt)
     dt0 = sim.dt
+    if dirn < 0:
+        counters['backward_histories'] = 1
     if spec['integrator'] == 'janus':
         sim.ri_janus.scale_pos = max(sim.ri_janus.scale_pos, 1e-12)     # JANUS has a finite box (2^63*scale); histories add bodies far out
         sim.ri_janus.scale_vel = max(sim.ri_janus.scale_vel, 1e-12)
@@ -148,7 +152,7 @@ def run_case(case):
         if not auto or not use_hb:
             return
         bt0 = boundaries[auto['first_boundary']:]
-        if any((not (b[1] == b[1])) for b in bt0) or any(bt0[i + 1][1] <= bt0[i][1] and bt0[i + 1][0] > bt0[i][0] for i in range(len(bt0) - 1)) or not (sim.dt > 0):
+        if any((not (b[1] == b[1])) for b in bt0) or any((bt0[i + 1][1] - bt0[i][1]) * dirn <= 0 and bt0[i + 1][0] > bt0[i][0] for i in range(len(bt0) - 1)) or not (sim.dt * dirn > 0):
             counters['cadence_skipped_time_not_forward'] = counters.get('cadence_skipped_time_not_forward', 0) + 1
             return          # NaN / backward time (e.g. IAS15 fed coinciding particles): the forward schedule is not defined
         autos = [e for e in expected[auto['first_index']:] if e['kind'] == 'auto']
@@ -164,9 +168,9 @@ def run_case(case):
         else:
             nxt = auto['armed_at_t']
             for s, t, _ in bt:
-                if nxt <= t:
+                if nxt * dirn <= t * dirn:
                     want.append((s, t))
-                    nxt += auto['value']
+                    nxt += dirn * auto['value']
         counters['cadence_checked_' + auto['mode']] += len(want)
         if len(got) != len(want) or any(g[0] != w[0] or rt.dbits(g[1]) != rt.dbits(w[1]) for g, w in zip(got, want)):
             j = next((i for i, (g, w) in enumerate(zip(got, want)) if g[0] != w[0] or rt.dbits(g[1]) != rt.dbits(w[1])), min(len(got), len(want)))
@@ -181,16 +185,16 @@ def run_case(case):
         op = None
         if N == 0 and x < 0.30:
             x = 0.35          # nothing to integrate: add instead
-        if x < 0.30 and not (sim.dt > 0 and sim.dt < 1e300):
+        if x < 0.30 and not (sim.dt * dirn > 0 and abs(sim.dt) < 1e300):
             sim.dt = dt0          # an adaptive integrator fed a degenerate state can leave dt=0/NaN; a user would reset it
         if x < 0.22:
-            T = abs(sim.dt) * r.choice([1.5, 3.2, 7.9, 20.3]) if sim.integrator not in ('ias15', 'bs', 'trace', 'mercurius') else min(dt0, abs(sim.dt)) * r.choice([2.0, 5.5, 11.0])
+            T = abs(sim.dt) * r.choice([1.5, 3.2, 7.9, 20.3]) if sim.integrator not in ('ias15', 'bs', 'trace', 'mercurius') else min(abs(dt0), abs(sim.dt)) * r.choice([2.0, 5.5, 11.0])
             op = dict(op='integrate', T=abs(T), exact=r.choice([0, 1]))
             import threading, signal
             tm = threading.Timer(6.0, lambda: os.kill(os.getpid(), signal.SIGINT))   # REBOUND's own SIGINT handler ends integrate() cleanly
             tm.start()
             try:
-                sim.integrate(sim.t + abs(T), exact_finish_time=op['exact'])
+                sim.integrate(sim.t + dirn * abs(T), exact_finish_time=op['exact'])
             finally:
                 tm.cancel()
             if auto:
@@ -289,9 +293,9 @@ def run_case(case):
             manual_snapshot()
         elif x < 0.97:
             mode = r.choice(['interval', 'step'])
-            val = sim.dt * r.choice([2.5, 6.1, 11.0]) if mode == 'interval' else r.choice([1, 3, 7])
+            val = abs(sim.dt) * r.choice([2.5, 6.1, 11.0]) if mode == 'interval' else r.choice([1, 3, 7])
             if sim.integrator in ('ias15', 'bs') and mode == 'interval':
-                val = dt0 * r.choice([1.5, 4.0])
+                val = abs(dt0) * r.choice([1.5, 4.0])
             op = dict(op='auto', mode=mode, val=val)
             # only one automatic mode may be active: clear the other first (documented constraint)
             sim.simulationarchive_auto_interval = 0
